@@ -9,7 +9,7 @@ DumpStep ==
     \/ /\ processed' # processed
        /\ PrintT(<<"CASE", ToJson([kind |-> "process", doc |-> processed'.doc, keys |-> 1, call |-> 0,
                                    resolves |-> Resolves(ReturnedDID(processed')), probe |-> NoProbe, shape |-> processed'.shape,
-                                   same |-> SameRequest(processed'.shape)])>>)
+                                   same |-> SameRequest(processed'.shape), refused |-> MustRefuse(processed'.shape)])>>)
     \/ /\ calls' = calls /\ processed' = processed
        /\ PrintT(<<"CASE", ToJson([kind |-> "resolve", doc |-> probe'.doc, keys |-> 1, call |-> 0,
                                    resolves |-> Resolves(probe'), probe |-> probe', decided |-> Decided(probe')])>>)
